@@ -221,7 +221,15 @@ fn exec_step(rep: usize, gi: usize, t: usize, s: &Value, slots: &Mutex<Vec<Optio
                 Some(p) => {
                     let (u, id, d) = entered.remove(p);
                     h.uid = u;
-                    d.exit(&id);
+                    if rep == 3 && s["cb_panic"].as_bool().unwrap_or(false) {
+                        // fault (per-layer-filter replica only): the filtered layer's on_exit panics, caught; the
+                        // filter must have been told about the exit all the same
+                        crate::reclayer::PANIC_ON_EXIT_ANY.with(|c| c.set(true));
+                        let _ = std::panic::catch_unwind(std::panic::AssertUnwindSafe(|| d.exit(&id)));
+                        crate::reclayer::PANIC_ON_EXIT_ANY.with(|c| c.set(false));
+                    } else {
+                        d.exit(&id);
+                    }
                     ENTERED_ANY.lock().unwrap().retain(|x| *x != (rep, u));
                     ENTERED_SLOT.with(|m| m.borrow_mut().retain(|x| !(x.0 == rep && x.2 == u)));
                 }
@@ -348,7 +356,7 @@ impl Engine for DirectiveEngine {
                     }
                 }
                 42..=54 => match gen_stack[t as usize].pop() {
-                    Some(sl) => json!({"t": t, "op": "exit", "slot": sl}),
+                    Some(sl) => json!({"t": t, "op": "exit", "slot": sl, "cb_panic": rng.chance(1, 6)}),
                     None => json!({"t": t, "op": "event", "site": rng.below(20)}),
                 },
                 55..=62 => {
